@@ -9,6 +9,7 @@ G1 original names: ReadNames asks for num_vars+num_common_exprs and num_cons+num
    fall back to the generic provider, objective names follow the selected objective(s);
 S1 the name file scanner and NameProvider::name never read outside the mapped file.
 """
+import re
 from ..cfg import Facts, kids, strip, walk, cv, render, call_args, call_object
 from ..cfg import short_loc as _short_loc
 from ..facts import export_many, AnalysisBroken
@@ -45,7 +46,8 @@ def run(rep, ctx):
                              r"mp::ConstraintKeeper::(CopyNamesFromValueNodes|CopyNames2ValueNodes)",
                              r"mp::ConstraintManager::CopyNamesFromValueNodes",
                              r"mp::pre::(CopyLink|Many2ManyLink)::(PresolveNames|PostsolveNames|CopySrcDest|DistributeFromSrc2Dest|Distr)",
-                             r"mp::pre::RangeCon2Slack::PresolveNamesEntry", r"mp::pre::ValueNode::(SetStr|CleanUpAndRealloc_Names)",
+                             r"mp::pre::RangeCon2Slack::PresolveNamesEntry", r"mp::pre::ValueNode::(SetStr|CleanUpAndRealloc_Names|GetStr|GetVal|GetValVec)",
+                             r"mp::pre::BasicStaticIndivEntryLink::GetStr", r"mp::pre::Copy", r"mp::pre::CopyRange",
                              r"mp::pre::ValuePresolverImpl::CleanUpNameNodes"], repo=repo),
             dict(unit=MU, fn=[r"mp::ModelManagerWithProblemBuilder::(ReadNames|SetObjNames)"], repo=repo),
             dict(unit="src/nl-reader.cc", fn=[r"mp::NameProvider::.*", r"mp::internal::ReadNames"], repo=repo)]
@@ -114,6 +116,44 @@ def run(rep, ctx):
              "copy assignment takes a counted name and only fills an empty slot (first writer wins)")
     cs = one(VS + "::operator basic_string")
     w1.check(len(calls(cs, qn=VS + "::MakeCountedName")) == 1, "to-string", short_loc(cs.loc), "conversion to std::string is a counted copy")
+
+
+    # ---- W2: the counter lives in the stored object, so transfers must read it by reference ---------
+    w2 = rep.rule("C19.W2", "WHO", "name transfers read the stored VCString by reference, so that every copy advances the counter of the stored source", floor=5)
+    for qn, pred in (("mp::pre::ValueNode::GetStr", lambda f: True), ("mp::pre::ValueNode::GetVal", lambda f: "VCString" in f.full),
+                     ("mp::pre::ValueNode::GetValVec", lambda f: "VCString" in f.full), ("mp::pre::BasicStaticIndivEntryLink::GetStr", lambda f: True)):
+        for f in [g for g in all_of(qn) if pred(g)][:2]:
+            ret = (f.d.get("ret") or "")
+            rr = [r for r in f.walk() if r["k"] == "ReturnStmt"]
+            src_ok = len(rr) == 1 and not any(x["k"] in ("CXXConstructExpr", "CXXTemporaryObjectExpr", "MaterializeTemporaryExpr") and "VCString" in (x.get("ct") or "") for x in walk(rr[0]))
+            w2.check(ret.rstrip().endswith("&") and src_ok, "accessor|%s%s" % (re.sub(r"mp::pre::|<mp::pre::RangeCon2Slack.*", "", f.full)[:60], "|Quad" if "QuadAndLinTerms" in f.full and "BasicStatic" in f.full else ""), short_loc(f.loc),
+                     "%s returns a reference to the stored name" % qn.split("::")[-1],
+                     "%s returns `%s`: a transfer works on a private copy whose counter restarts, so two items receive the same generated name" % (f.full.split("::")[-1][:40], ret))
+    for f in [g for g in all_of("mp::pre::Many2ManyLink::Distr") if "VCString" in g.full]:
+        sv = calls(f, name="SetVal")
+        ok = len(sv) == 1
+        why = ""
+        if ok:
+            a = strip(call_args(sv[0])[1])
+            while a["k"] in ("CXXConstructExpr", "MaterializeTemporaryExpr", "CXXBindTemporaryExpr", "ImplicitCastExpr") and kids(a):
+                a = strip(kids(a)[0])
+            if a["k"] == "DeclRefExpr":
+                v = [x for x in f.walk() if x["k"] == "VarDecl" and x.get("declId") == a.get("declId")]
+                ok = len(v) == 1 and (v[0].get("ct") or "").rstrip().endswith("&")
+                why = "the value handed to SetVal is the local `%s` of type %s" % (a.get("name"), v[0].get("ct") if v else "?")
+                if ok:
+                    ini = strip(kids(v[0])[0])
+                    while ini["k"] in ("MaterializeTemporaryExpr", "ExprWithCleanups", "ImplicitCastExpr", "CXXBindTemporaryExpr") and kids(ini):
+                        ini = strip(kids(ini)[0])
+                    ok = ini["k"] == "CXXMemberCallExpr" and (ini.get("callee") or "").endswith("::GetVal") and ini["k"] != "MaterializeTemporaryExpr" and \
+                        not any(x["k"] == "MaterializeTemporaryExpr" for x in walk(kids(v[0])[0]))
+                    why = "the local is bound to a temporary"
+            elif a["k"] == "CXXMemberCallExpr":
+                ok = (a.get("callee") or "").endswith("::GetVal")
+            else:
+                ok = False
+        w2.check(ok, "distribute-by-reference", short_loc(f.loc), "Distr<VCString> hands the stored source object itself to every SetVal (reference, no intermediate copy)",
+                 "Distr<VCString>: %s - copies are counted on a temporary, the stored name's counter does not advance per target" % why)
 
     # ---- T1 ---------------------------------------------------------------------------
     t1 = rep.rule("C19.T1", "TABLE", "names are transferred by every link to each target; PresolveNames installs all three item classes", floor=8)
